@@ -4,7 +4,7 @@ import BFL.Model.Skip
 Driver entries for C13.
 
   skip <predKind> <exo 0|1> <corrKind> <seed> <n> <k> op op …
-      predKind ∈ kf ukfa ukfg draw gpfkf;  corrKind, seed, n, k are used by the C++ harness only
+      predKind ∈ kf ukfa ukfg draw gpfkf draw2;  corrKind, seed, n, k are used by the C++ harness only
       op = L:<name>:<0|1>   skip command at level L ∈ F (filter) P (prediction) C (correction) M (state model);
                             `~` stands for the empty name
          | p | c            predict / correct on the running belief
@@ -23,6 +23,7 @@ def parseKind (s : String) : Option PredKind :=
   | "ukfg" => some .ukfGen
   | "draw" => some .draw
   | "gpfkf" => some .gpfKf
+  | "draw2" => some .draw        -- DrawParticles(state model, exogenous model): see `drawTwoArgConfig`
   | _ => none
 
 def bit (b : Bool) : String := if b then "1" else "0"
@@ -83,7 +84,8 @@ def runOps (k : PredKind) : SkipState → List String → Option (List String)
         (runOps k r.st ts).map ((outStr r.out ++ "/" ++ obsAll k r.st) :: ·)
 
 def skipLine : R String := do
-  let k ← tok
+  let kStr ← tok
+  let k := kStr
   let exo ← bool
   let _ ← tok; let _ ← tok; let _ ← tok; let _ ← tok
   let ops ← get
@@ -91,7 +93,7 @@ def skipLine : R String := do
   match parseKind k with
   | none => failure
   | some k =>
-    let st := SkipState.init exo
+    let st := if kStr == "draw2" then drawTwoArgConfig exo else SkipState.init exo
     match runOps k st ops with
     | none => failure
     | some out => pure (join (("init/" ++ obsAll k st) :: out))
